@@ -133,6 +133,7 @@ class Machine:
             mn = parts[0]
             ops = [o.strip() for o in re.split(r",(?![^()]*\))", parts[1])] if len(parts) > 1 else []
             i += 1
+            dom.note = "%x: %s" % (addr, text)
             if mn in ("movq", "mov", "movabs"):
                 self.wr(ops[1], self.rd(ops[0]))
             elif mn in ("add", "addq", "adc", "adcq", "adcx", "adox"):
